@@ -61,6 +61,9 @@ func (o Op) String() string {
 		}
 		return o.K
 	case "cleand", "reloadd", "grow", "growside", "growx", "growlag":
+		if o.L != "" {
+			return fmt.Sprintf("%s(%d,%s)", o.K, o.D, o.L)
+		}
 		return fmt.Sprintf("%s(%d)", o.K, o.D)
 	}
 	return o.K
@@ -601,7 +604,14 @@ func (w *World) Apply(op Op) *Step {
 		}
 	case "cleand":
 		w.Store.StartLog()
+		if strings.HasPrefix(op.L, "fault") {
+			// the k-th storage write / removal of this Clean fails (a transient storage fault)
+			var k int
+			fmt.Sscanf(op.L, "fault%d", &k)
+			w.Store.FailAt(k)
+		}
 		err, p := Safe(func() error { return w.Repo.VerifClean(w.Ctx, op.D) })
+		w.Store.FailAt(0)
 		st.Mutated = w.Store.StopLog()
 		st.Panic = p
 		if err != nil {
